@@ -37,6 +37,8 @@ def find_loop (repo, func):
       for (o, sz), nm in zip(offs, names):
         if o + k0 == 2 and sz == 2 and isinstance(nm, ast.Name):
           cand.append((nm.id, ('unpack', n.value.args[1], b0), n))
+  # the same variable computed by the same expression in several branches (an inlined helper's early returns duplicate code) is one candidate
+  if len(cand) > 1 and len(set((c_[0], norm(c_[2].value) if isinstance(c_[2], ast.Assign) else id(c_[2])) for c_ in cand)) == 1: cand = cand[:1]
   if len(cand) != 1:
     raise AnalysisError("%s: cannot identify the wire-length variable uniquely (%d candidates)" % (func.qual, len(cand)))
   L = Loop(); L.func = func; L.g = g
